@@ -60,7 +60,7 @@ ASSUMPTIONS = [
     "spin per scenario",
     "the containers are modelled: Expr/Term/Obj are records (objects, exponent, idx, base_and_exponent, assumptions), products "
     "merge equal bases like sympy, KroneckerDelta(p, p) = 1 and delta**n = delta; sympy's isinstance(Add/Mul/Pow), .args, "
-    ".func, .atoms(Index), .has, .subs(index, index) are modelled on these products; get_symbols(<str>) yields spin-less "
+    ".func, .atoms(Index), .has, .subs(index, index), Mul/Add.make_args are modelled on these products; get_symbols(<str>) yields spin-less "
     "indices; func.evaluate_deltas and the KroneckerDelta properties it reads are evaluated from their source",
     "orthogonality is represented by one fixed rational rotation matrix (non-symmetric), dimension 2",
     "excluded from the decided domain: terms without provided targets whose Einstein targets change because delta_pp = 1 "
@@ -320,7 +320,7 @@ class Run:
         self.in_evd = False
         self.sx = Symex(ctx.model, inline=lambda q: True, what=what, attr_hook=self.attr_hook, max_paths=64, oracle=self.oracle,
                         isinstance_hook=self.isinst, hooks={
-            "Mul": self.h_mul, "Add": self.h_add, "atoms": self.h_atoms, "has": self.h_has, "subs": self.h_subs, "func": self.h_func,
+            "Mul": self.h_mul, "Add": self.h_add, "Mul.make_args": self.h_make_args("mul"), "Add.make_args": self.h_make_args("add"), "atoms": self.h_atoms, "has": self.h_has, "subs": self.h_subs, "func": self.h_func,
             "Expr": self.h_expr, "KroneckerDelta": self.h_delta, "Pow": self.h_pow, "evaluate_deltas": self.h_evd,
             "sort_idx_canonical": self.h_sortkey, "get_symbols": self.h_get_symbols})
         self.sx.strict_names = True   # an undefined name is a NameError of the library, not an external value
@@ -362,6 +362,19 @@ class Run:
             ks = {k for t in subterms(recv) if t.op == "tens" for k in t.args[1]}
             return any(x.__dict__["name"] in ks for x in xs)
         return NotImplemented
+
+    def h_make_args(self, op):
+        """sympy's Mul.make_args / Add.make_args: the arguments of a product (sum), anything else is its own single argument."""
+        def hook(sx, args, kw):
+            if len(args) != 1 or kw:
+                return NotImplemented
+            x = args[0]
+            if isinstance(x, T) and not has_cont(x) and _is_value(x):
+                return tuple(x.args) if x.op == op else (x,)
+            if is_num(x) or isinstance(x, Ent):
+                return (x,)
+            return NotImplemented
+        return hook
 
     def h_func(self, sx, args, kw):
         recv = args[0]
